@@ -52,6 +52,9 @@ type chkGen struct {
 	r       *Rand
 	methods []*chkMethod
 	nv      int
+	// the program declares the overloaded function ov: every call of it tries the overloads
+	// one after the other, rolling the diagnostics of the failed attempts back
+	overloads bool
 }
 
 func (g *chkGen) expr(m *chkMethod, vars []string, depth int) string {
@@ -60,6 +63,9 @@ func (g *chkGen) expr(m *chkMethod, vars []string, depth int) string {
 			return Pick(g.r, vars)
 		}
 		return fmt.Sprint(g.r.Range(0, 9))
+	}
+	if g.overloads && g.r.Chance(0.3) {
+		return "ov(" + g.expr(m, vars, depth-1) + ")"
 	}
 	switch k := g.r.Intn(10); {
 	case k < 3:
@@ -176,8 +182,15 @@ func (g *chkGen) body(m *chkMethod, errKind string) string {
 	return b.String()
 }
 
+const chkOverloads = `overload def ov(a: String): Int then 1
+overload def ov(a: Float): Int then 2
+overload def ov(a: Int): Int
+  a + 1
+end
+`
+
 func genCheckerProgram(r *Rand, maxMethods int) (string, int, int) {
-	g := &chkGen{r: r}
+	g := &chkGen{r: r, overloads: r.Chance(0.4)}
 	nMethods := r.Range(3, maxMethods)
 	nClasses := r.Range(0, 3)
 	nModules := r.Range(0, 2)
@@ -235,6 +248,9 @@ func genCheckerProgram(r *Rand, maxMethods int) (string, int, int) {
 		errAt[r.Intn(nMethods)] = "unused"
 	}
 	var b strings.Builder
+	if g.overloads && r.Bool() {
+		b.WriteString(chkOverloads)
+	}
 	// shuffle definition order so that forward references are common
 	order := make([]int, nMethods)
 	for i := range order {
@@ -290,6 +306,9 @@ func genCheckerProgram(r *Rand, maxMethods int) (string, int, int) {
 		} else {
 			emitOwner(m.kind, m.owner)
 		}
+	}
+	if g.overloads && !strings.HasPrefix(b.String(), chkOverloads) {
+		b.WriteString(chkOverloads)
 	}
 	// constants initialised from method calls
 	// (the checker recurses forever on constants initialised from recursive methods: only
